@@ -1757,6 +1757,122 @@ def fuse_tuple_comprehensions(fn) -> int:
     return done
 
 
+def thread_constant_flags(fn) -> int:
+    """if C: ...; flag = False      (flag: a local the original function does not have, used nowhere else)
+       else: ...; flag = True
+       if not flag: continue
+    ->
+       if C: ...; continue
+       else: ...
+    What an extracted helper that returns `(present, value)` leaves behind when it is put back: the flag only carries the branch taken to
+    the jump that follows, so the jump is written into the branch."""
+    import copy
+    is_new = new_local_predicate(fn)
+    done = 0
+    for node in [fn] + list(ast.walk(fn)):
+        for attr in ("body", "orelse", "finalbody"):
+            blk = getattr(node, attr, None)
+            if not isinstance(blk, list):
+                continue
+            i = 0
+            while i + 1 < len(blk):
+                a, b = blk[i], blk[i + 1]
+                i += 1
+                if not (isinstance(a, ast.If) and a.orelse and isinstance(b, ast.If) and not b.orelse and len(b.body) == 1
+                        and isinstance(b.body[0], (ast.Continue, ast.Break, ast.Return))):
+                    continue
+                t = b.test
+                neg = isinstance(t, ast.UnaryOp) and isinstance(t.op, ast.Not)
+                fl = t.operand if neg else t
+                if not (isinstance(fl, ast.Name) and is_new(fl.id)):
+                    continue
+                if isinstance(b.body[0], ast.Return) and b.body[0].value is not None and not isinstance(b.body[0].value, (ast.Constant, ast.Name)):
+                    continue
+                flag = fl.id
+                occ = [x for x in ast.walk(fn) if isinstance(x, ast.Name) and x.id == flag]
+                branches = [a.body, a.orelse]
+                sets = []
+                ok = True
+                for br in branches:
+                    st = [s_ for s_ in br if isinstance(s_, ast.Assign) and len(s_.targets) == 1 and isinstance(s_.targets[0], ast.Name) and s_.targets[0].id == flag]
+                    if len(st) != 1 or not (isinstance(st[0].value, ast.Constant) and isinstance(st[0].value.value, bool)):
+                        ok = False
+                        break
+                    # the branch falls through to the test (no jump of its own at its top level before the end)
+                    if any(isinstance(s_, (ast.Continue, ast.Break, ast.Return, ast.Raise)) for s_ in br):
+                        ok = False
+                        break
+                    sets.append(st[0])
+                if not ok or len(occ) != len(sets) + 1:
+                    continue
+                for br, st in zip(branches, sets):
+                    taken = (not st.value.value) if neg else st.value.value
+                    br.remove(st)
+                    if taken:
+                        j = copy.deepcopy(b.body[0])
+                        ast.copy_location(j, st)
+                        br.append(j)
+                    if not br:
+                        br.append(ast.copy_location(ast.Pass(), st))
+                blk.remove(b)
+                done += 1
+                i = 0
+    if done:
+        for n in ast.walk(fn):
+            for child in ast.iter_child_nodes(n):
+                child._parent = n
+                if not hasattr(child, "_module") and hasattr(fn, "_module"):
+                    child._module = fn._module
+    return done
+
+
+def drop_dead_copies(fn) -> int:
+    """`h = value` into a local the original function does not have, where no read of `h` can be reached from the assignment (the branch
+    jumps away right after it): the copy has no effect."""
+    from .cfg import CFG
+    is_new = new_local_predicate(fn)
+    done = 0
+    for _ in range(8):
+        try:
+            cfg = CFG(fn)
+        except Exception:
+            break
+        victim = None
+        for st in _own_nodes(fn):
+            if not (isinstance(st, ast.Assign) and len(st.targets) == 1 and isinstance(st.targets[0], ast.Name) and is_new(st.targets[0].id)
+                    and (isinstance(st.value, (ast.Name, ast.Constant)) or _is_path(st.value))):
+                continue
+            x = st.targets[0].id
+            dn = cfg.node_of(st)
+            if dn is None or any(isinstance(n, ast.Name) and n.id == x for sc in _nested_scopes(fn) for n in ast.walk(sc)):
+                continue
+            rd = cfg.reaching_defs(x)
+            loads = [n for n in _own_nodes(fn) if isinstance(n, ast.Name) and n.id == x and isinstance(n.ctx, (ast.Load, ast.Del))]
+            if any(isinstance(n, ast.AugAssign) and isinstance(n.target, ast.Name) and n.target.id == x for n in _own_nodes(fn)):
+                continue
+            live = False
+            for ld in loads:
+                un = cfg.header_node_for_expr(ld) or cfg.node_of(ld)
+                if un is None or dn.id in rd.get(un.id, set()) or un.id == dn.id:
+                    live = True
+                    break
+            if not live:
+                victim = st
+                break
+        if victim is None:
+            break
+        holder = victim._parent
+        for attr in ("body", "orelse", "finalbody"):
+            blk = getattr(holder, attr, None)
+            if isinstance(blk, list) and any(b is victim for b in blk):
+                blk[:] = [b for b in blk if b is not victim] or [ast.copy_location(ast.Pass(), victim)]
+        for n in ast.walk(fn):
+            for child in ast.iter_child_nodes(n):
+                child._parent = n
+        done += 1
+    return done
+
+
 def run(prog) -> int:
     from .inline import relink
 
@@ -1777,6 +1893,8 @@ def run(prog) -> int:
                 changed += hoist_walrus(node)
                 changed += split_chained_assignments(node)
                 changed += split_tuple_assignments(node)
+                if thread_constant_flags(node):
+                    changed += 1 + drop_dead_copies(node)
                 changed += coalesce_copies(node)
                 changed += merge_nested_ifs(node)
                 changed += forward_single_use_temps(node)
